@@ -330,12 +330,15 @@ func componentCase(c *Case) (*WF, string) {
 	case "globdep":
 		return globDepWF(c), kind
 	case "filecomb":
-		k := 1 + t.Choose(simrt.StGen, 3, 0)
+		k := 1 + t.Choose(simrt.StGen, 4, 0)
 		shared := k >= 2 && t.Choose(simrt.StGen, 3, 0) == 1
 		var ups []Edge
 		var sharedEdge Edge
 		for i := 0; i < k; i++ {
 			n := itemCounts[t.Choose(simrt.StGen, 5, 0)]
+			if k == 4 && n > 3 {
+				n = 3 // (keeps the product at <= 81 tuples)
+			}
 			if shared {
 				if n > buf {
 					n = buf
@@ -369,10 +372,13 @@ func componentCase(c *Case) (*WF, string) {
 		}
 		zipConsumer(w, "use", outs, ports[:k])
 	case "paramcomb":
-		k := 1 + t.Choose(simrt.StGen, 3, 0)
+		k := 1 + t.Choose(simrt.StGen, 4, 0)
 		cmb := Node{Name: "pcomb", Kind: KParamCombinator}
 		for i := 0; i < k; i++ {
 			n := itemCounts[t.Choose(simrt.StGen, 5, 0)]
+			if k == 4 && n > 3 {
+				n = 3
+			}
 			ps := ParamSpec{Name: ports[i]}
 			var vals []string
 			for x := 0; x < n; x++ {
@@ -393,7 +399,7 @@ func componentCase(c *Case) (*WF, string) {
 		}
 		paramConsumer(w, "use", outs, ports[:k])
 	case "selector":
-		k := 1 + t.Choose(simrt.StGen, 3, 0)
+		k := 1 + t.Choose(simrt.StGen, 4, 0)
 		n := itemCounts[t.Choose(simrt.StGen, 6, 0)]
 		s := srcNode(w, "src0", n, "")
 		sel := Node{Name: "sel", Kind: KSelector}
@@ -564,7 +570,7 @@ func linesOf(b []byte) int { return strings.Count(string(b), "\n") }
 
 func init() {
 	Register(&Check{ID: "C19", Level: "exploration",
-		Rule: "one case = one bundled component in a small tape-generated harness workflow under one tape-chosen schedule (incl. map-iteration order, which decides the combinators' 'head' port): FileCombinator / ParamCombinator with 1..3 ports and stream lengths 0..4 (independent upstreams; or one shared upstream with length <= bufsize) feeding a consuming zip process - every element of the Cartesian product exactly once, ports aligned; IPSelectorSync with 1..3 aligned ports and a tape-chosen predicate mask - exactly the all-true tuples; FileSplitter (files of 0..7 lines, 1..3 lines per split) - recorded parts concatenate to the input, no part longer than the limit; Concatenator - output = inputs in recorded arrival order, each followed by newline; FileGlobber over a generated tree vs an independent glob evaluation; FileToParamsReader / CommandToParams / FileSource / ParamSource - exactly the given items in order. distinct = event-log hash; non-trivial = >=2 tasks, >=1 non-default choice",
+		Rule: "one case = one bundled component in a small tape-generated harness workflow under one tape-chosen schedule (incl. map-iteration order, which decides the combinators' 'head' port): FileCombinator / ParamCombinator with 1..4 ports and stream lengths 0..4 (independent upstreams; or one shared upstream with length <= bufsize) feeding a consuming zip process - every element of the Cartesian product exactly once, ports aligned; IPSelectorSync with 1..4 aligned ports and a tape-chosen predicate mask - exactly the all-true tuples; FileSplitter (files of 0..7 lines, 1..3 lines per split) - recorded parts concatenate to the input, no part longer than the limit; Concatenator - output = inputs in recorded arrival order, each followed by newline; FileGlobber over a generated tree vs an independent glob evaluation; FileToParamsReader / CommandToParams / FileSource / ParamSource - exactly the given items in order. distinct = event-log hash; non-trivial = >=2 tasks, >=1 non-default choice",
 		Run: func(c *Case) Verdict {
 			w, kind := componentCase(c)
 			c.Sample = kind + ": " + sample(w)
